@@ -15,7 +15,9 @@ use crate::common::*;
 use crate::key_transforms::Mapper;
 use crate::keys::Event::{Pressed, Released};
 use crate::keys::{Event, KeyCode, Layout};
-use crate::remapping_loop::verif_hooks::run_real_driver_on_fds;
+#[cfg(ellbur_totalmapper_verif_real)] use crate::remapping_loop::verif_hooks::run_real_driver_on_fds;
+#[cfg(not(ellbur_totalmapper_verif_real))] fn run_real_driver_on_fds(_k: RawFd, _w: RawFd, _t: Option<RawFd>, _l: Layout, _v: bool) -> Result<(), String> { Err("hook not built".into()) }
+pub const HOOK_BUILT: bool = cfg!(ellbur_totalmapper_verif_real);
 use num_traits::FromPrimitive;
 use serde_json::{json, Value};
 use std::collections::{BTreeMap, HashSet};
@@ -333,6 +335,7 @@ pub fn layout_value(l: &Layout) -> Value { crate::corpus::layout_json(l) }
 
 pub fn run_family(ctx: &Ctx, id: &str) -> RAgg {
   let mut agg = RAgg { runs: 0, steps: 0, distinct_outputs: HashSet::new(), faults_bitten: 0, viols: BTreeMap::new(), machinery: None, note: None };
+  if !HOOK_BUILT { agg.note = Some("real-descriptor tier unavailable: the hook run_real_driver_on_fds did not compile on this tree (the real driver was restructured); the harness was built without it".into()); println!("NOTE property={} real-descriptor tier (Engine R) unavailable on this tree: hook not built", id); return agg; }
   // is the stepping mechanism available here at all?
   match thread_state(unsafe { libc::syscall(libc::SYS_gettid) } as i32) { Some(_) => {}, None => { agg.note = Some("real-descriptor tier skipped: /proc/self/task/<tid>/syscall or status is not readable here".into()); return agg; } }
   let scs = scenarios(id, ctx.tier);
